@@ -8,6 +8,7 @@ NET_HDR = (b"Inter-|   Receive                                                | 
            b" face |bytes    packets errs drop fifo frame compressed multicast|bytes    packets errs drop fifo colls carrier compressed\n")
 SCENARIOS = {
     "2x1-calls": [[("call",), ("call",)], [("call",)]],
+    "2x1-disk": [[("disk",), ("disk",)], [("disk",)]],
     "2x2-calls": [[("call",), ("call",)], [("call",), ("call",)]],
     "calls-vs-clear": [[("call",), ("call",), ("call",)], [("clear",), ("call",)]],
     "net-vs-disk": [[("call",), ("call",)], [("disk",), ("disk",)]],
@@ -149,7 +150,7 @@ def run_s(ctx):
     tot = {"executions": 0, "points": 0}
     viols, per, distinct = [], {}, 0
     for scn in SCENARIOS:
-        bound = (3 if scn == "2x1-calls" else 2) if ctx.thorough else (2 if scn == "2x1-calls" else 1)
+        bound = (3 if scn in ("2x1-calls", "2x1-disk") else 2) if ctx.thorough else (2 if scn == "2x1-calls" else 1)
         h = Harness(scn)
         root = h.run([])
         for cause, msg in judge(root):
